@@ -10,7 +10,8 @@ name of the math namespace (numpy ufuncs and `np`: sign, power, mod, exp, ...)
 is the table's entry, not the numpy object.  {"meta": "gblmath"} on stdin returns
 the names of that namespace, read from xdeps.table at run time.
 
-stdin : {"cases": [{"data": [[key, kind, value]..], "col_names": [..]|null, "index": str, "ops": [op..]}]}
+stdin : {"cases": [{"data": [[key, kind, value]..], "col_names": [..]|null, "index": str, "ops": [op..],
+                    "ctor_kw": {sep_count, sep_previous, sep_next, cast_strings} (optional)}]}
         kind: "float"|"int"|"str"|"obj" (1-d arrays), "vec2"|"vec3"|"mat" (one vector / 2x2 matrix per
               row: arrays of shape (n,2), (n,3), (n,2,2); values = one flat list per row), "scalar"
         op : ["rows", sel] | ["cols", [names], "str"|"list"] | ["addself"] | ["addrows", sel] | ["mul", k]
@@ -223,7 +224,7 @@ def run_case(case):
         data[key] = val if kind == "scalar" else mk_array(kind, val)
     obs, fails = [], []
     try:
-        cur = xd.Table(data, col_names=case["col_names"], index=case["index"])
+        cur = xd.Table(data, col_names=case["col_names"], index=case["index"], **case.get("ctor_kw", {}))
     except Exception as e:  # noqa
         return exc(e), [], [[]], []
     ctor = ["ok", shape(cur)]
